@@ -198,6 +198,19 @@ def _derives_from_arg(b, op, argl, depth=0, seen=None):
 def new_solvables(ctx, crate, crs, tag):
     """run_sat: closures filtering the decision stack read Decision.value and test clauses_added_for_solvable."""
     root = SOLVER + "run_sat"
+    has_value_filter, has_contains = stack_filters(crate, crs)
+    ctx.ob("new-solvables" + tag, root, "filter:decision.value", has_value_filter, "",
+           "only decisions with value == true are candidates for encoding")
+    ctx.ob("new-solvables" + tag, root, "filter:not-yet-encoded", has_contains, "",
+           "solvables already in clauses_added_for_solvable are not encoded again")
+    encode_inputs(ctx, crate, crs, tag)
+
+
+def stack_filters(crate, crs=()):
+    """How run_sat selects the decisions whose solvables it encodes next: (only decisions with value == true, only solvables not yet
+    in clauses_added_for_solvable).  Two forms are understood: filter closures over the decision stack, and a loop over the stack whose
+    push of the selected element is reachable only through the true edge of `decision.value` and the false edge of `contains`."""
+    root = SOLVER + "run_sat"
     cl = [b for b in crate.bodies if b.root and strip_generics(b.root) == root and b.kind == "Closure"]
     has_value_filter = False
     has_contains = False
@@ -212,11 +225,31 @@ def new_solvables(ctx, crate, crs, tag):
         for i, t in q.calls_on_field(b, "std::collections::HashSet::contains", STATE_ADT, "clauses_added_for_solvable"):
             # result must be negated before it is returned
             has_contains = _negated_return(b, i)
-    ctx.ob("new-solvables" + tag, root, "filter:decision.value", has_value_filter, "",
-           "only decisions with value == true are candidates for encoding")
-    ctx.ob("new-solvables" + tag, root, "filter:not-yet-encoded", has_contains, "",
-           "solvables already in clauses_added_for_solvable are not encoded again")
-    encode_inputs(ctx, crate, crs, tag)
+    if has_value_filter and has_contains:
+        return True, True
+    b = body_by_key(crate, root)
+    if b is None:
+        return has_value_filter, has_contains
+    pushes = [(i, t) for i, t in b.calls_to("std::vec::Vec::push") if len(t["args"]) > 1 and
+              "field:state.decision_tracker" in q.leaves(b, t["args"][1])]
+    if not pushes:
+        return has_value_filter, has_contains
+    cs = q.conds(b, crs)
+    def is_value(c):
+        d = c.src or {}
+        return c.kind == "bool" and any(
+            isinstance(e, dict) and e.get("n") == "value" and e.get("of") == "resolvo::solver::decision::Decision" for e in d.get("proj", []))
+    contains_bbs = {i for i, t in q.calls_on_field(b, "std::collections::HashSet::contains", STATE_ADT, "clauses_added_for_solvable")}
+    def is_contains(c):
+        d = c.src or {}
+        return c.kind == "bool" and d.get("k") == "call" and d.get("bb") in contains_bbs and not d.get("proj")
+    v_edges = [(c.bb, c.edges[True]) for c in cs if is_value(c) and c.edges.get(True) is not None]
+    c_edges = [(c.bb, c.edges[False]) for c in cs if is_contains(c) and c.edges.get(False) is not None]
+    if not has_value_filter:
+        has_value_filter = bool(v_edges) and all(q.only_via_edges(b, v_edges, i) for i, t in pushes)
+    if not has_contains:
+        has_contains = bool(c_edges) and all(q.only_via_edges(b, c_edges, i) for i, t in pushes)
+    return has_value_filter, has_contains
 
 
 def encode_inputs(ctx, crate, crs, tag):
